@@ -381,7 +381,7 @@ fn corpus_batch(files: &[PathBuf]) -> (Vec<Violation>, u64) {
             cwd: &sb.root,
             schedule_env: None,
             trace_file: None,
-            strace: None, hash_seed: None
+            strace: None, hash_seed: None, fsize_limit: None
         });
         runs += 1;
         if !matches!(r.code, Some(0) | Some(1)) {
@@ -552,6 +552,70 @@ pub fn run(tier: Tier) -> CheckResult {
         .collect();
     evaluations += truncs.len() as u64;
     all_v.extend(tres.into_iter().flatten());
+    // unparsable files whose offending line is full of multi-byte characters: the syntax error sits
+    // after a prefix of 0..120 characters of 2, 3 or 4 bytes, with 0 / 40 / 100 more after it
+    let mut bad_lines: Vec<(String, String)> = vec![];
+    for (cn, c) in [("2-byte", "é"), ("3-byte", "漢"), ("4-byte", "😀"), ("mixed", "aé漢😀")] {
+        for prefix in 0..=120usize {
+            for tail in [0usize, 40, 100] {
+                let pre: String = c.chars().cycle().take(prefix).collect();
+                let post: String = c.chars().cycle().take(tail).collect();
+                bad_lines.push((format!("{}:{}+{}", cn, prefix, tail), format!("pub const TABLE: [(&str, &str); 1] = [(\"k\", \"{}\" \"oops{}\")];\n", pre, post)));
+            }
+        }
+    }
+    let bres: Vec<Option<Violation>> = bad_lines
+        .par_iter()
+        .map(|(label, text)| {
+            if deadline.passed() {
+                return None;
+            }
+            let p = Project { files: vec![valid.clone(), ("src/i18n.rs".into(), text.clone())], links: vec![] };
+            let r = run_lib_default(&p, &Cfg::mode(false));
+            if let LibStatus::Panic(m) = &r.status {
+                return Some(Violation::new("C15", "panic", format!("unparsable file with a multi-byte line ({}): {}", label, m), json!({"bad_line": label, "text": text})).field("family", "unparsable-multibyte-line").field("file", label.split(':').next().unwrap_or("").to_string()));
+            }
+            let out: BTreeMap<String, String> = r.files.iter().map(|(k, v)| (k.clone(), strip_timestamp(v))).collect();
+            if syn::parse_file(text).is_err() && out != reference {
+                return Some(Violation::new("C15", "bad-file-not-isolated", format!("unparsable file ({}) changed the output of the valid file", label), json!({"bad_line": label, "text": text})).field("family", "unparsable-multibyte-line").field("file", label.split(':').next().unwrap_or("").to_string()));
+            }
+            None
+        })
+        .collect();
+    evaluations += bad_lines.len() as u64;
+    all_v.extend(bres.into_iter().flatten());
+    // reference cycles of 1..6 serde types, with and without the dependency visualisation, through
+    // the real binary (unbounded recursion would abort the process)
+    let cyc: Vec<(usize, bool, &str)> = (1..=6usize).flat_map(|n| [(n, false, "none"), (n, true, "none"), (n, true, "zod")]).collect();
+    let cyres: Vec<Option<Violation>> = cyc
+        .par_iter()
+        .map(|(n, viz, mode)| {
+            let sb = Sandbox::new();
+            let mut src = String::from(gen::PRELUDE);
+            for i in 0..*n {
+                let next = (i + 1) % n;
+                let field = ["Vec<C@>", "Option<C@>", "HashMap<String, C@>", "(i32, Vec<C@>)"][i % 4].replace('@', &next.to_string());
+                src.push_str(&format!("#[derive(Serialize, Deserialize)]\npub struct C{} {{ pub id: i32, pub next: {} }}\n", i, field));
+            }
+            src.push_str("#[tauri::command]\npub fn head() -> C0 { todo!() }\n");
+            Project::single(src).write_to(&sb.path("proj")).unwrap();
+            let mut args: Vec<String> = vec!["tauri-typegen".into(), "generate".into(), "-p".into(), "./proj".into(), "-o".into(), "./out".into(), "-v".into(), mode.to_string()];
+            if *viz {
+                args.push("--visualize-deps".into());
+            }
+            let r = run::spawn(Spawn { program: run::cli_binary(), args, cwd: &sb.root, schedule_env: None, trace_file: None, strace: None, hash_seed: None, fsize_limit: None });
+            if !matches!(r.code, Some(0) | Some(1)) {
+                return Some(
+                    Violation::new("C15", "panic-or-abort", format!("reference cycle of {} types, visualize={}, {} mode: {} {}", n, viz, mode, r.status_string(), r.stderr.lines().filter(|l| l.contains("panicked") || l.contains("overflow")).take(2).collect::<Vec<_>>().join(" | ")), json!({"cycle": n, "visualize": viz, "mode": mode}))
+                        .field("family", "type-cycle")
+                        .field("file", format!("cycle-{}{}", n, if *viz { "+visualize" } else { "" })),
+                );
+            }
+            None
+        })
+        .collect();
+    subprocess_runs += cyc.len() as u64;
+    all_v.extend(cyres.into_iter().flatten());
     // corpus
     let mut corpus: Vec<PathBuf> = vec![];
     rs_files_under(Path::new("/repo/src"), &mut corpus);
@@ -589,7 +653,7 @@ pub fn run(tier: Tier) -> CheckResult {
                     cwd: &sb.root,
                     schedule_env: None,
                     trace_file: None,
-                    strace: None, hash_seed: None
+                    strace: None, hash_seed: None, fsize_limit: None
                 });
                 subprocess_runs += 1;
                 if r.code != Some(101) && r.signal.is_none() {
@@ -629,7 +693,7 @@ pub fn run(tier: Tier) -> CheckResult {
         {"TypeVariant": {"ty": "for<'a> fn(&'a str) -> &'a str", "site": "event", "depth": 5}},
         {"corpus": "/repo/src/analysis/mod.rs"}
     ]));
-    res.coverage.set("rule", format!("(i) every string of <= {} letters over a 21-letter alphabet (ASCII, space, 2/3/4-byte characters, escaped quote, escaped backslash, parentheses, comma, '=', and the words the scanners look for) injected at 9 attribute-string positions; 40 raw attribute token forms (empty, missing values, non-literal values, duplicates, raw strings, cfg_attr) on fields, structs, variants, parameters and fns; (ii) 14 odd identifiers in 8 roles; (iii) 32 exotic syn::Type forms at the five sites wrapped to depth 0..5 in process, four non-ASCII project type names at every constructor position (map key / value, each tuple element, set element, Result arms, nested once more) of the five sites, every arity 0..4 of emit / emit_to / emit_filter x 3 forms of the name argument x 5 receiver forms, nesting depth up to {} in a subprocess; an item-shape zoo (tuple/unit/generic structs, data-carrying and tagged enums, unions, trait and impl methods, pattern parameters, qualifiers, emit calls of every arity and payload expression); (iv) every .rs file under /repo{} as single-file projects through the real binary (batched, bisected on exit status outside {{0,1}}), every line-boundary truncation of tests/fixtures next to a valid file; oracle: no panic (in process: catch_unwind, re-confirmed through the binary), exit status in {{0,1}}, and an unparsable file leaves the output of the valid file unchanged.", 3, if tier == Tier::Quick { 256 } else { 2000 }, if tier == Tier::Thorough { " and every .rs file in ~/.cargo/registry/src" } else { "" }));
+    res.coverage.set("rule", format!("(i) every string of <= {} letters over a 21-letter alphabet (ASCII, space, 2/3/4-byte characters, escaped quote, escaped backslash, parentheses, comma, '=', and the words the scanners look for) injected at 9 attribute-string positions; 40 raw attribute token forms (empty, missing values, non-literal values, duplicates, raw strings, cfg_attr) on fields, structs, variants, parameters and fns; (ii) 14 odd identifiers in 8 roles; (iii) 32 exotic syn::Type forms at the five sites wrapped to depth 0..5 in process, four non-ASCII project type names at every constructor position (map key / value, each tuple element, set element, Result arms, nested once more) of the five sites, every arity 0..4 of emit / emit_to / emit_filter x 3 forms of the name argument x 5 receiver forms, nesting depth up to {} in a subprocess; an item-shape zoo (tuple/unit/generic structs, data-carrying and tagged enums, unions, trait and impl methods, pattern parameters, qualifiers, emit calls of every arity and payload expression); (iv) every .rs file under /repo{} as single-file projects through the real binary (batched, bisected on exit status outside {{0,1}}), every line-boundary truncation of tests/fixtures next to a valid file; unparsable files whose offending line holds 0..120 characters of 2 / 3 / 4 bytes before the error and 0 / 40 / 100 after it; reference cycles of 1..6 serde types with and without the dependency visualisation through the real binary; oracle: no panic (in process: catch_unwind, re-confirmed through the binary), exit status in {{0,1}}, and an unparsable file leaves the output of the valid file unchanged.", 3, if tier == Tier::Quick { 256 } else { 2000 }, if tier == Tier::Thorough { " and every .rs file in ~/.cargo/registry/src" } else { "" }));
     res.assumptions = vec!["totality is claimed only over these finite sets".into()];
     res
 }
